@@ -20,6 +20,7 @@ events:
   s i|l|f|s|c|v|x                        node state (init leader follower sync config vote close)
   l 0|1|2                                ChangeLeader: no address / the live leader / a dead address
   x <c>                                  the client closes connection c
+  x <c> <k>                              … and the link's reader closes the link after k of Close's frames have gone out
 output per event: ok | ign | busy | defer | loc | nolink | <to clients>|<forwarded>  with
   to clients = `c>msg` joined by + (or -), forwarded = `c<cmd` joined by + (or -)
 ids (lockid, key, cid): a script number n, or z = the all-zero id.
@@ -121,6 +122,7 @@ def parseTransEvent (ts : List String) : Option Event :=
   | ["l", "1"] => some (.leader .live)
   | ["l", "2"] => some (.leader .dead)
   | ["x", c] => do pure (.close (← c.toNat?))
+  | ["x", c, k] => do pure (.closeCut (← c.toNat?) (← k.toNat?))
   | _ => none
 
 def parseTransEvent' (ts : List String) : Option Event :=
